@@ -33,7 +33,7 @@ def snap_sig(root):
     return sha1(json.dumps(sorted((k, v[0], v[1], v[2]) for k, v in s.items())).encode()).hex()
 
 
-def do_op(op, base, target, version, metafile, scratch, plen=1, alt=False, route="lib"):
+def do_op(op, base, target, version, metafile, scratch, plen=1, alt=False, route="lib", align=False):
     """Execute one tool operation; returns a JSON-able signature of its observable result."""
     from .create import create_meta, rest_sig
     try:
@@ -42,13 +42,16 @@ def do_op(op, base, target, version, metafile, scratch, plen=1, alt=False, route
             creator = "TorrentFile" if version == 1 else ("TorrentAssembler", "TorrentFileV2", "TorrentFileHybrid")[
                 0 if not alt else (1 if version == 2 else 2)]
             if route == "lib":
-                st = create_meta({"creator": creator, "version": version, "P": P * plen}, tpath(base, target), metafile)
+                st = create_meta({"creator": creator, "version": version, "P": P * plen, "align": align and version == 1},
+                                 tpath(base, target), metafile)
             else:
                 # through torrentfile.cli.execute: plain, with a tracker flag, or with a configuration
                 # file that names a tracker and a web seed
                 from torrentfile.cli import execute
                 argv = ["create", tpath(base, target), "-o", metafile, "--prog", "0", "--meta-version", str(version),
                         "--piece-length", str(P * plen)]
+                if align and version == 1:
+                    argv += ["--align"]
                 if route == "clitracker":
                     argv += ["-a", "http://flag.example/announce"]
                 if route == "cliconfig":
@@ -108,10 +111,10 @@ def do_op(op, base, target, version, metafile, scratch, plen=1, alt=False, route
     return {"status": "unknown-op", "sig": ""}
 
 
-def fresh(op, base, target, version, metafile, scratch, plen=1, alt=False, route="lib"):
+def fresh(op, base, target, version, metafile, scratch, plen=1, alt=False, route="lib", align=False):
     """The same operation in a brand-new interpreter."""
     req = json.dumps({"op": op, "base": base, "target": target, "version": version, "metafile": metafile,
-                      "scratch": scratch, "plen": plen, "alt": alt, "route": route})
+                      "scratch": scratch, "plen": plen, "alt": alt, "route": route, "align": align})
     env = dict(os.environ, PYTHONPATH=VERIF + os.pathsep + REPO, PYTHONDONTWRITEBYTECODE="1", VERIF_REPO=REPO)
     p = subprocess.run([sys.executable, "-c", "from vh.system import fresh_main; fresh_main()"], input=req.encode(),
                        stdout=subprocess.PIPE, stderr=subprocess.PIPE, env=env, timeout=120)
@@ -130,7 +133,7 @@ def fresh_main():
     import logging
     logging.disable(logging.CRITICAL)
     res = do_op(req["op"], req["base"], req["target"], req["version"], req["metafile"], req["scratch"],
-                req.get("plen", 1), req.get("alt", False), req.get("route", "lib"))
+                req.get("plen", 1), req.get("alt", False), req.get("route", "lib"), req.get("align", False))
     sys.stdout = real
     print("RESULT " + json.dumps(res))
 
@@ -190,14 +193,15 @@ def run_history(case):
                 shutil.copyfile(mf_in, mf_fr)
             alt = (n + case["id"]) % 2 == 1
             route = stp.get("route", "lib") if op == "create" else stp.get("search", "own")
-            res_fr = fresh(op, base, target, version, mf_fr, scratch_fr, plen, alt, route)
-            res_in = do_op(op, base, target, version, mf_in, scratch_in, plen, alt, route)
+            align = bool(stp.get("align")) and op == "create"
+            res_fr = fresh(op, base, target, version, mf_fr, scratch_fr, plen, alt, route, align)
+            res_in = do_op(op, base, target, version, mf_in, scratch_in, plen, alt, route, align)
             rec = {"id": rid + n, "group": "none", "sysop": op, "target": target, "version": version,
                    "status": res_in["status"], "sig": res_in["sig"], "fresh_status": res_fr["status"],
                    "fresh_sig": res_fr["sig"], "clauses": ["C09.fresh"]}
             if op == "create":
                 root = tpath(base, target)
-                rec.update({"op": "create", "align": False, "P": P * plen, "single": target == "r/a",
+                rec.update({"op": "create", "align": align and version == 1, "P": P * plen, "single": target == "r/a",
                             "name": hexs(os.path.basename(root)), "outer": "", "creator": "history",
                             "disk": [{"path": [hexs(c) for c in comps], "size": sz}
                                      for comps, sz in alpha.disk_files(root)]})
